@@ -126,18 +126,17 @@ func (dss *dataStoreSet) getDb(index int, create bool) (ds *dataStore, valid boo
 	return
 }
 
-func (dss *dataStoreSet) flushDb(index int) {
+// snapshot of the database table; the databases themselves are never replaced, because
+// connections keep a pointer to the one they selected
+func (dss *dataStoreSet) allDbs() []*dataStore {
 	dss.mu.Lock()
 	defer dss.mu.Unlock()
 
-	delete(dss.dbs, index)
-}
-
-func (dss *dataStoreSet) flushAll() {
-	dss.mu.Lock()
-	defer dss.mu.Unlock()
-
-	dss.dbs = map[int]*dataStore{}
+	dbs := make([]*dataStore, 0, len(dss.dbs))
+	for _, ds := range dss.dbs {
+		dbs = append(dbs, ds)
+	}
+	return dbs
 }
 
 func (dss *dataStoreSet) getUser(userName string) (dsu *dataStoreUser, exists bool) {
